@@ -122,12 +122,22 @@ int main(int argc, char** argv) {
     }
     return 0;
   } else if (A.mode == "format_size") {
-    size_t size = A.u("in_size");
-    bool inc = A.u("in_include_bytes") != 0;
+    // the counterexample first, then witness sizes in every unit (1.5 units, just below the next unit, unit + 1) in both forms: the
+    // verifier's quotient is an abstract float, so its size need not be one on which the printed digits differ
+    std::vector<std::pair<size_t, bool>> cases = {{(size_t)A.u("in_size"), A.u("in_include_bytes") != 0}};
+    for (int u = 1; u <= 6; u++) for (int inc = 0; inc < 2; inc++) {
+      size_t unit = (size_t)1 << (10 * u);
+      cases.push_back({unit + unit / 2, inc != 0});
+      cases.push_back({unit + 1, inc != 0});
+      if (u < 6) cases.push_back({unit * 1023 + unit / 4 * 3, inc != 0});
+    }
+    for (auto& cs : cases) {
+    size_t size = cs.first;
+    bool inc = cs.second;
     string text = format_size(size, inc);
     printf("format_size(%zu, %d) = \"%s\"\n", size, inc, text.c_str());
     string bytes = to_string(size) + " bytes";
-    if (size < 1024) { RCHECK(text == bytes, "expected \"%s\"", bytes.c_str()); return 0; }
+    if (size < 1024) { RCHECK(text == bytes, "expected \"%s\"", bytes.c_str()); continue; }
     static const char letters[] = "KMGTPE";
     int idx = 0;
     while (idx < 5 && (size >> (10 * (idx + 2))) != 0) idx++;       // largest unit <= size
@@ -144,6 +154,7 @@ int main(int argc, char** argv) {
     long double printed = strtold(num.c_str(), nullptr), exact = (long double)size / (long double)((u128)1 << (10 * (idx + 1)));
     // the quotient is computed in float (24-bit significand): relative error 2^-23, plus half a unit of the last printed digit
     RCHECK(fabsl(printed - exact) <= 0.005L + exact * 2.4e-7L + 1e-9L, "printed %s, size / unit = %.6Lf", num.c_str(), exact);
+    }
     return 0;
   } else if (A.mode == "parse_size") {
     size_t n = A.u("g_ps_n");
